@@ -617,7 +617,7 @@ HARNESSES.append(
       require=lambda tier: ["rejected", "queued", "timed_out"], classify=sync_classify,
       functions=["Bulkhead.handle_event/_forward_request/_enqueue_request/_handle_response/_handle_timeout/_try_process_queued"],
       bounds=lambda tier: {"requests": 4, "arrivals": "symbolic ns [0,4]", "service ns": 3, "max_concurrent": [1, 2], "wait queue": [0, 1, 2], "wait timeout": [None, "2 ns"]},
-      outside=["connection pool"]))
+      outside=[]))
 
 
 # ------------------------------------------------------------------ ThreadPool in the engine
@@ -682,4 +682,110 @@ HARNESSES.append(
       require=lambda tier: ["queue_overflow", "simultaneous_arrivals"], classify=sync_classify,
       functions=["ThreadPool.handle_queued_event/has_capacity", "QueuedResource.handle_event", "QueueDriver.*", "FixedConcurrency.*"],
       bounds=lambda tier: {"tasks": 3 if tier == "quick" else 4, "arrivals": "symbolic ns [0,4]", "processing ns": [1, 3], "workers": [1, 2], "queue capacity": "symbolic [1,3]"},
-      outside=["connection pool"]))
+      outside=[]))
+
+
+# ------------------------------------------------------------------ ConnectionPool in the engine
+def connection_pool(sym, tier):
+    """3 clients acquire a connection from a real ConnectionPool (max 1-2 connections, connection set-up
+    latency 0 or 2 ms, wait timeout 1 s) at symbolic whole milliseconds, hold it 3 ms and release it:
+    the pool never owns more connections than max_connections (also while one is being set up), no
+    connection has two holders, everybody is served, and a waiter resumes at the instant of the release
+    that serves it."""
+    from happysimulator.components.client.connection_pool import ConnectionPool
+    from happysimulator.core.entity import Entity
+    from happysimulator.core.simulation import Simulation
+    from happysimulator.distributions.constant import ConstantLatency
+    from harness.common import Monitor, SpinDetected, mk_event
+    r = Result()
+    mx = 1 + sym.choice("max_connections_minus_1", 2)
+    lat = [0.0, 0.002][sym.choice("connection_latency", 2)]
+    MS = 1_000_000
+    holders = {}            # connection id -> client currently holding it
+    log = []                # (client, 'got'/'rel', ns, conn id)
+    problems = []
+
+    class Target(Entity):
+        def handle_event(self, event):
+            return None
+
+    tgt = Target("db")
+    pool = ConnectionPool("pool", target=tgt, max_connections=mx, connection_timeout=1.0, idle_timeout=60.0, connection_latency=ConstantLatency(lat))
+
+    class Client(Entity):
+        def handle_event(self, event):
+            conn = yield from pool.acquire()
+            if conn.id in holders:
+                problems.append(("connection_has_one_holder", conn.id, holders[conn.id], self.name))
+            holders[conn.id] = self.name
+            log.append((self.name, "got", self.now.nanoseconds, conn.id))
+            yield 0.003
+            del holders[conn.id]
+            log.append((self.name, "rel", self.now.nanoseconds, conn.id))
+            return pool.release(conn)
+
+    cl = [Client(f"c{i}") for i in range(3)]
+    ts = [sym.int(f"arrive{i}", 0, 4) for i in range(3)]
+    sim = Simulation(entities=[pool, tgt] + cl, end_time=Instant(3_000 * MS) if False else None)
+    mon = Monitor(sim, cap=80)
+
+    def on_event(e):
+        if pool.total_connections > mx:
+            problems.append(("pool_never_owns_more_than_max_connections", pool.total_connections, mx))
+        if pool.active_connections > mx:
+            problems.append(("active_connections_never_exceed_max", pool.active_connections, mx))
+
+    sim.control.on_event(on_event)
+    sim.schedule([mk_event(ts[i] * MS, f"go{i}", cl[i]) for i in range(3)])
+    try:
+        sim.run()
+    except SpinDetected:
+        pass
+    mon.judge(r, "connection_pool")
+    for p_ in problems[:1]:
+        r.bad(p_[0], {"detail": p_[1:], "arrivals_ms": ts, "max_connections": mx, "connection_latency_s": lat})
+    served = [x for x in log if x[1] == "got"]
+    if not mon.spun and len(served) != 3:
+        r.bad("every_waiter_is_eventually_served", {"served": served, "arrivals_ms": ts, "max_connections": mx})
+    # a client that had to wait (pool exhausted) resumes at the instant of some release
+    rel_times = [x[2] for x in log if x[1] == "rel"]
+    for (c, what, t, cid) in served:
+        i = int(c[1:])
+        immediate = t == ts[i] * MS or t == ts[i] * MS + int(lat * 1e9)
+        if not immediate:
+            r.wit.add("somebody_waited")
+            if t not in rel_times:
+                r.bad("waiter_resumes_at_the_release_that_serves_it", {"client": c, "got_at_ns": t, "releases_ns": rel_times, "arrivals_ms": ts,
+                                                                        "max_connections": mx, "connection_latency_s": lat})
+    if lat > 0 and len(set(ts)) < 3:
+        r.wit.add("arrival_during_connection_set_up")
+    r.obs = {"log": log}
+    return r
+
+
+def pool_classify(clause, draws, obs):
+    """Known finding: a client waiting for a connection polls every min(0.1 s, timeout/10) instead of being woken,
+    so it resumes at its next poll tick after the release.  Recognised only when the resume instant lies after a
+    release and on the waiter's own 0.1 s polling grid."""
+    import json
+    if not clause.startswith("waiter_resumes_at_the_release_that_serves_it"):
+        return None
+    try:
+        d = json.loads(clause.split(": ", 1)[1])
+    except Exception:
+        return None
+    i = int(d["client"][1:])
+    start = d["arrivals_ms"][i] * 1_000_000
+    t = d["got_at_ns"]
+    if (t - start) % 100_000_000 == 0 and any(rt <= t for rt in d["releases_ns"]):
+        return "connection-pool-waiters-poll-instead-of-being-woken"
+    return None
+
+
+HARNESSES.append(
+    H(name="c09_connection_pool", fn=connection_pool, shape="S", budget=lambda tier: 900.0,
+      cubes=lambda tier: [{"max_connections_minus_1": a, "connection_latency": b} for a in range(2) for b in range(2)],
+      require=lambda tier: ["somebody_waited", "arrival_during_connection_set_up"], classify=pool_classify,
+      functions=["ConnectionPool.acquire/release/_create_connection/_activate_connection/_try_get_idle_connection"],
+      bounds=lambda tier: {"clients": 3, "arrivals": "symbolic whole ms [0,4]", "hold": "3 ms", "max connections": [1, 2], "connection set-up latency": [0.0, 0.002], "wait timeout": "1 s"},
+      outside=["idle-timeout closing", "warm-up", "acquire timeouts"]))
